@@ -28,6 +28,7 @@ def run(ctx, crate):
     rule_fraction_clamp(ctx, crate)
     rule_getters(ctx, crate)
     rule_pos_writers(ctx, crate)
+    rule_pos_setters_exact(ctx, crate)
     # "position() equals the value defined by the history of ... finish calls": per-variant effect of finishing on the position
     from .c04 import rule_finish_arms, rule_on_finish_writers, rule_finish_api_map
     rule_finish_arms(ctx, crate)
@@ -265,6 +266,41 @@ POS_HISTORY_API = r"progress_bar::ProgressBar::(inc|dec|set_position|with_positi
 NON_POS_API = r"progress_bar::ProgressBar::(set_length|inc_length|dec_length|unset_length|set_message|set_prefix|set_style|set_tab_width|set_draw_target|tick|" \
               r"enable_steady_tick|disable_steady_tick|println|suspend|with_message|with_prefix|with_style|with_tab_width|with_finish|" \
               r"position|length|eta|elapsed|duration|per_sec|message|prefix|is_finished|is_hidden|downgrade|style|force_draw)"
+
+
+def rule_pos_setters_exact(ctx, crate, rule="R-POS-SETTERS-EXACT"):
+    """"position() always equals the value defined by the history of .. set_position .. calls": a setter stores the value it was
+    given. Every function with a `u64` argument that ends in a plain store into the position atomic (AtomicPosition::set and what
+    forwards to it: ProgressState::set_pos, ProgressBar::set_position / with_position, ProgressBarIter::with_position) hands the
+    argument on unmodified - no min/max/clamp against the length, no arithmetic (positions beyond the length are legal:
+    `fraction()` clamps, the position does not)."""
+    cfg = crate.config
+    n = 0
+    targets = (r"state::AtomicPosition::set", r"state::ProgressState::set_pos", r"progress_bar::ProgressBar::set_position", r"progress_bar::ProgressBar::with_position")
+    for b in K.lib_bodies(crate):
+        if b.kind == "Closure":
+            continue
+        u64_params = [i for i in range(1, b.arg_count + 1) if b.locals[i]["ty"] == "u64"]
+        if not u64_params:
+            continue
+        sites = []
+        for c in b.calls(*targets):
+            if len(c.args) > 1:
+                sites.append((c, c.args[1]))
+        for c in b.calls(r"portable_atomic::AtomicU64::(store|swap)"):
+            if len(c.args) > 1 and b.slice_args(c, [0]).has_field("pos", AP) and K.meth(b.name) in ("set",):
+                sites.append((c, c.args[1]))
+        for c, a in sites:
+            sl = b.slice(a, at=c.bb)
+            if not (sl.params() & set(u64_params)):
+                continue            # not forwarding an argument (finish: the length; reset: zero)
+            n += 1
+            mods = sorted({K.meth(x.path) for x in sl.calls if not x.matches(r"std::convert::(From::from|Into::into)", r"std::clone::Clone::clone")} |
+                          {"%s" % a_[1] for a_ in sl.atoms if a_[0] == "binop"})
+            ctx.check(not mods, rule, "stores-argument:%s" % K.meth(b.name), b.name, c.loc(),
+                      "%s hands the given position on unmodified" % K.meth(b.name),
+                      "%s modifies the position it was given before storing it (%s): with_position()/set_pos() and set_position() of the same value end at different positions" % (K.meth(b.name), ", ".join(mods)), cfg)
+    ctx.floor(rule, n, 4, cfg, "position setters forwarding an argument")
 
 
 def rule_pos_writers(ctx, crate, rule="R-POS-WRITERS"):
